@@ -1167,6 +1167,10 @@ static int do_open(int which, int dirfd, const char *path, int flags, mode_t mod
     }
     char x[96];
     flags_str(flags, x, sizeof x);
+    if (flags & O_CREAT) {          /* the requested permission bits of a created file: "...|m600" */
+        size_t l = strlen(x);
+        snprintf(x + l, sizeof x - l, "|m%o", (unsigned)mode);
+    }
     ev_t e = EV("open", p, x);
     if (ev_begin(&e)) return -1;
     int r = call_real_open(which, dirfd, path, flags, mode);
